@@ -31,6 +31,8 @@ var subdecHooks = map[string]func(ids []string, trim func(string) string) string
 	"decorator.close.waited":       func([]string, func(string) string) string { return "closer" },
 }
 
+// (hook observers run on the goroutine that passes the hook point: with goid() that is how the Close points of overlapping
+// Close calls are told apart)
 const subdecK = 3 // messages per subscription at most (constant K of the trace specification)
 
 // waitCancel: Close is called only after the output channel of every cancelled subscription was closed (bounded wait): cancelling
@@ -46,9 +48,14 @@ func subdecRun(r *tr.Run, rng *rand.Rand, waitCancel bool) {
 	}
 	var hmu sync.Mutex
 	outClosed := map[string]chan struct{}{"pump:s1": make(chan struct{}), "pump:s2": make(chan struct{})}
+	var closerOf sync.Map // goroutine -> name of the Close call it is making
 	onHook := func(point string, ids []string) {
 		if f, ok := subdecHooks[point]; ok && len(ids) > 0 {
 			g := f(ids, trim)
+			if g == "closer" {
+				c, _ := closerOf.Load(goid())
+				g = fmt.Sprintf("closer:%v", c)
+			}
 			r.Emit("hook", "g", g, "point", point)
 			if point == "decorator.sub.closed" {
 				hmu.Lock()
@@ -182,20 +189,31 @@ func subdecRun(r *tr.Run, rng *rand.Rand, waitCancel bool) {
 			inwg.Wait()
 		}()
 	}
-	wg.Add(1)
-	go func() {
-		defer wg.Done()
-		for k := rnd(5); k > 0; k-- {
-			nap()
-		}
-		for _, s := range toWait {
-			<-cancelled[s]
-		}
-		r.Emit("closecall")
-		close(closeStarted)
-		_ = dec.Close()
-		r.Emit("closeret")
-	}()
+	nclosers := 1 + rnd(2) // Close calls may overlap: the second begins once the first has
+	for ci := 1; ci <= nclosers; ci++ {
+		c := fmt.Sprintf("c%d", ci)
+		wg.Add(1)
+		go func() {
+			defer wg.Done()
+			for k := rnd(5); k > 0; k-- {
+				nap()
+			}
+			for _, s := range toWait {
+				<-cancelled[s]
+			}
+			if c != "c1" {
+				<-closeStarted
+				nap()
+			}
+			closerOf.Store(goid(), c)
+			r.Emit("closecall", "c", c)
+			if c == "c1" {
+				close(closeStarted)
+			}
+			_ = dec.Close()
+			r.Emit("closeret", "c", c)
+		}()
+	}
 	if !WaitOrHang(waitWG(&wg)) {
 		r.Emit("hung", "what", "decorator scenario")
 		return
@@ -237,7 +255,11 @@ func subdecReplay(r *tr.Run, word []string) {
 	}
 	onHook := func(point string, ids []string) {
 		if f, ok := subdecHooks[point]; ok && len(ids) > 0 {
-			r.Emit("hook", "g", f(ids, trim), "point", point)
+			g := f(ids, trim)
+			if g == "closer" {
+				g = "closer:c1"
+			}
+			r.Emit("hook", "g", g, "point", point)
 		}
 	}
 	defer sched.Observe(prefix, onHook)()
@@ -407,9 +429,9 @@ func subdecReplay(r *tr.Run, word []string) {
 			wg.Add(1)
 			go func() {
 				defer wg.Done()
-				r.Emit("closecall")
+				r.Emit("closecall", "c", "c1")
 				_ = dec.Close()
-				r.Emit("closeret")
+				r.Emit("closeret", "c", "c1")
 			}()
 		case "innerstart":
 			letInnerClose()
@@ -437,9 +459,9 @@ func subdecReplay(r *tr.Run, word []string) {
 		wg.Add(1)
 		go func() {
 			defer wg.Done()
-			r.Emit("closecall")
+			r.Emit("closecall", "c", "c1")
 			_ = dec.Close()
-			r.Emit("closeret")
+			r.Emit("closeret", "c", "c1")
 		}()
 	}
 	for _, x := range st {
